@@ -155,14 +155,11 @@ impl Expr {
                 };
                 format!("(for ({}) {})", its_s, body_s)
             }
-            Expr::Declare(p, e) => format!("{} := {}", p.src(), e.src()),
-            Expr::Assign(x, e) => format!("{} = {}", x, e.src()),
+            Expr::Declare(p, e) => format!("({} := {})", p.src(), e.src()),
+            Expr::Assign(x, e) => format!("({} = {})", x, e.src()),
             Expr::OpAssign(x, o, e) => {
-                if is_symbolic(o) {
-                    format!("{} {}= {}", x, o, e.src())
-                } else {
-                    format!("{} {}= {}", x, o, e.src())
-                }
+                let _ = is_symbolic(o);
+                format!("({} {}= {})", x, o, e.src())
             }
             Expr::Lambda(ps, body) => {
                 let ps_s = ps
